@@ -56,7 +56,10 @@ var c02Site = map[string]string{
 	"inc2":    "{% include 'plain' %}+{% include 'a/p' %}+{% include 'b/p' with {'q': v} only %}",
 	// loop state read where it outlives the loop body that set it: after an inner loop, after the loop itself,
 	// inside an included template and inside a macro called from the body
-	"loops":   "{% for a in l %}{% for b in l %}{{ b }}{{ tick() }}{% endfor %}{% if not loop.last %},{% endif %}{{ loop.index }}{{ tick() }}{% include 'a/p' %}{{ loop.revindex }}{% endfor %}{{ loop.length }}{{ tick() }}{% for k, x in m %}{{ loop.index0 }}{{ k }}{% endfor %}{{ loop.first ? 'F' : 'f' }}",
+	"loops": "{% for a in l %}{% for b in l %}{{ b }}{{ tick() }}{% endfor %}{% if not loop.last %},{% endif %}{{ loop.index }}{{ tick() }}{% include 'a/p' %}{{ loop.revindex }}{% endfor %}{{ loop.length }}{{ tick() }}{% for k, x in m %}{{ loop.index0 }}{{ k }}{% endfor %}{{ loop.first ? 'F' : 'f' }}",
+	// helpers with state of their own behind the operators: different patterns / formats in overlapping renders
+	"rx1":     "{{ v matches '/^[a-z]/' ? 'L' : 'l' }}{{ tick() }}{{ 'Abc' matches '/^a/i' ? 'I' : 'i' }}{{ p.Name matches '/n$/' ? 'N' : 'n' }}{{ tick() }}{{ 12345.678|number_format(2, '.', ',') }}{{ v|replace('a', 'b') }}",
+	"rx2":     "{{ v matches '/[0-9]$/' ? 'D' : 'd' }}{{ tick() }}{{ 'Abc' matches '/^a/' ? 'I' : 'i' }}{{ 'xyz' matches '/^x/' ? 'X' : 'x' }}{{ tick() }}{{ 0.5|number_format(1, ',', '.') }}{{ v|replace('v', 'w') }}{{ '%s=%d'|format(v, 3) }}",
 	"hot":     "H0:{{ v }}{{ tick() }}",
 	"opt":     "[{% include 'late' ignore missing %}]{{ tick() }}",
 	"fsdoc":   "H0:{{ tick() }}",
@@ -122,9 +125,9 @@ func (propC02) Gen(seed uint64, ex map[string]bool) interface{} {
 			sc.Preload = append(sc.Preload, n)
 		}
 	}
-	renderable := []string{"a/x", "b/y", "a/sub/z", "b/w", "a/m", "b/m", "plain", "inc2", "long", "a/p", "b/p", "sbox", "nosb", "sbox", "nosb", "loops", "loops"}
+	renderable := []string{"a/x", "b/y", "a/sub/z", "b/w", "a/m", "b/m", "plain", "inc2", "long", "a/p", "b/p", "sbox", "nosb", "sbox", "nosb", "loops", "loops", "rx1", "rx2", "rx1", "rx2"}
 	if ex["relative-names"] {
-		renderable = []string{"plain", "inc2", "long", "a/p", "b/p", "sbox", "nosb", "loops"}
+		renderable = []string{"plain", "inc2", "long", "a/p", "b/p", "sbox", "nosb", "loops", "rx1", "rx2"}
 	}
 	if len(sc.Extra) > 0 {
 		renderable = append(renderable, names[len(names)-1])
